@@ -336,22 +336,63 @@ class PoolOpsFamily(common.Family):
   name = 'poolops'
 
   def gen(self, rng, tier):
-    return {
-        'workers': rng.choice([1, 2, 3]),
+    n = rng.choice([1, 2, 3])
+    cfg = {
+        'workers': n,
         'ops': [{'op': rng.choice(['run', 'run', 'call_and_wait']),
                  'fail': rng.random() < 0.4,
                  'i': rng.randrange(10)} for _ in range(rng.randrange(1, 4))],
+        'call_timeout': 5, 'hb': 120, 'plan': [], 'timed': [],
         'sim': {'fine': rng.random() < 0.15,
                 'stay': rng.choice([0.0, 0.5, 0.8])},
     }
+    if rng.random() < 0.6:
+      # Workers leave (gracefully or not) while an operation holds them: the
+      # operation must still hand back every worker, dead or alive.
+      cfg['call_timeout'] = rng.choice([5, 5, 200])  # 0 = wait for ever, by design
+      cfg['hb'] = rng.choice([70, 120])
+      for _ in range(rng.choice([1, 1, 2])):
+        f = {'addr': f'w{rng.randrange(n)}', 'method': 'maybe_make',
+             'nth': rng.choice([1, 1, 2, 3]),
+             'kind': rng.choice(['goodbye', 'goodbye', 'death', 'death_after',
+                                 'drop_reply', 'restart'])}
+        if f['kind'] == 'goodbye':
+          f['secs'] = rng.choice([0.0, 1.0, 10.0, 400.0])
+        if f['kind'] == 'restart':
+          f['after'] = rng.choice([1.0, 30.0, 200.0])
+        cfg['plan'].append(f)
+      if rng.random() < 0.4:
+        # ... or at an arbitrary scheduling step, not tied to a call
+        cfg['timed'].append({'w': f'w{rng.randrange(n)}',
+                             'steps': rng.choice([5, 20, 50, 100, 200, 400]),
+                             'kind': rng.choice(['goodbye', 'death'])})
+    return cfg
 
   def drive(self, cfg, sim):
+    import threading
+    import courier
     from ml_metrics._src.chainables import courier_worker, lazy_fns
+    from scenarios import faults
     from scenarios import remote_lib as L
     cl = cluster.Cluster(n_workers=cfg['workers'], prefetched=False, host=True)
-    pool = courier_worker.WorkerPool(cl.addresses(), call_timeout=5,
-                                     heartbeat_threshold_secs=120)
+    pool = courier_worker.WorkerPool(cl.addresses(),
+                                     call_timeout=cfg.get('call_timeout', 5),
+                                     heartbeat_threshold_secs=cfg.get('hb', 120))
     pool.wait_until_alive(deadline_secs=120, minimum_num_workers=cfg['workers'])
+    if cfg.get('plan'):
+      courier.NET.policy = faults.PlanPolicy(sim, cfg['plan'], cl)
+    for tf in cfg.get('timed', ()):
+      def inject(tf=tf):
+        sim.wait_steps(tf['steps'])
+        if courier.NET.is_dead(cl.node_of(tf['w'])):
+          return
+        sim.count('fault:timed_' + tf['kind'])
+        if tf['kind'] == 'goodbye':
+          cl.servers[tf['w']].stop()
+        else:
+          cl.kill(tf['w'])
+      with cluster.node('injector'):
+        threading.Thread(target=inject, name='injector', daemon=True).start()
     log = []
     for op in cfg['ops']:
       task = lazy_fns.trace(L.task_fn)(op['i'], fail=op['i'] if op['fail'] else None)
@@ -400,6 +441,9 @@ class PoolOpsFamily(common.Family):
     if len(cfg['ops']) > 1:
       for i in range(len(cfg['ops'])):
         c = copy.deepcopy(cfg); del c['ops'][i]; yield c
+    for k in ('plan', 'timed'):
+      for i in range(len(cfg.get(k, ()))):
+        c = copy.deepcopy(cfg); del c[k][i]; yield c
     if cfg['workers'] > 1:
       c = copy.deepcopy(cfg); c['workers'] -= 1; yield c
 
